@@ -562,9 +562,13 @@ func (g *gen) value(depth int) string {
 	var s string
 	switch r.Intn(12) {
 	case 0:
-		s = genString(r, 4)
+		if r.Intn(4) == 0 {
+			s = genString(r, 4)
+		} else {
+			s = genString(r, 1)
+		}
 	case 1:
-		s = []string{"0", "1", "-1", "42", "0o17", "999999999999999999", "-999999999999999999", "007"}[r.Intn(8)]
+		s = []string{"0", "1", "-1", "42", "0o17", "99999999999999999", "-99999999999999999", "007"}[r.Intn(8)]
 	case 2:
 		s = []string{"True", "False", "None"}[r.Intn(3)]
 	case 3:
@@ -708,7 +712,17 @@ func (g *gen) statement(indent, depth int, inFor bool) {
 			g.line(indent, "pass")
 		}
 	case 10:
-		g.line(indent, g.expr(ed)) // literal / expression statement
+		// literal / expression statement (must not start with a keyword-like identifier)
+		switch r.Intn(4) {
+		case 0:
+			g.line(indent, genString(r, 2))
+		case 1:
+			g.line(indent, "["+g.exprList(ed, 3)+"]")
+		case 2:
+			g.line(indent, "("+g.exprList(ed, 3)+")")
+		default:
+			g.line(indent, fmt.Sprint(r.Intn(100))+" + "+g.expr(ed))
+		}
 	case 11:
 		g.line(indent, g.identList()+", "+g.id()+" = "+g.expr(ed))
 	case 12:
@@ -724,10 +738,10 @@ func (g *gen) statement(indent, depth int, inFor bool) {
 
 // genProgram returns a program intended to be valid asp.
 func genProgram(r *rand.Rand) string {
-	g := &gen{r: r, budget: 40 + r.Intn(200)}
-	n := 1 + r.Intn(6)
+	g := &gen{r: r, budget: 10 + r.Intn(80)}
+	n := 1 + r.Intn(4)
 	for i := 0; i < n; i++ {
-		g.statement(0, 3, false)
+		g.statement(0, 2+r.Intn(2), false)
 	}
 	s := g.sb.String()
 	if r.Intn(10) == 0 {
